@@ -79,7 +79,7 @@ CHECKS = {
         "test": "TestC11", "level": "exploration",
         "technique": "model-based stateful property testing (rapid): transaction overlay model",
         "quick": {"shards": 12, "n": 700, "timeout": 600, "extra": [{"test": "TestC11F", "n": 120, "shards": 6}]},
-        "thorough": {"shards": 12, "n": 40000, "timeout": 3400, "extra": [{"test": "TestC11F", "n": 6000, "shards": 6}]},
+        "thorough": {"shards": 12, "n": 40000, "timeout": 3400, "extra": [{"test": "TestC11F", "n": 3000, "shards": 6}]},
         "floor": {"quick": 1000, "thorough": 20000},
         "rule": "rapid draws histories with OpenTransaction, transaction writes spanning several internal flushes, reads inside (overlay model) and outside (model at open) the transaction, Commit, Discard, Close with an open transaction, oversized DB.Write batches; after Discard/Commit/reopen a full sweep is compared with the model and, at idle, storage must contain no table outside the live set. "
                 "Non-trivial: a transaction was committed or discarded in a case that also flushed buffers.",
